@@ -30,12 +30,13 @@ impl super::GetFrameType for NewTokenFrame {
 
 impl super::EncodeSize for NewTokenFrame {
     fn max_encoding_size(&self) -> usize {
-        // token's length could not exceed 20
-        1 + 1 + self.token.len()
+        self.encoding_size()
     }
 
     fn encoding_size(&self) -> usize {
-        1 + 1 + self.token.len()
+        let token_len =
+            VarInt::try_from(self.token.len()).expect("token length must be less than 2^62");
+        1 + token_len.encoding_size() + self.token.len()
     }
 }
 
